@@ -41,6 +41,7 @@ def run(ctx):
     ctx.rule(stft_streaming)
     ctx.rule(_full_sibling)
     ctx.rule(single_chunk_history)
+    ctx.rule(split_invariance)
     ctx.rule(si_finalize)
     ctx.rule(carry)
     ctx.rule(shift_register)
@@ -345,6 +346,107 @@ def _full_sibling(ctx, R="R-C01-geom-siblings"):
     path is held to (frame count, paddings, frame bounds per frame style / kaldi_shift)"""
     from .c02 import geom
     geom(ctx, R)
+
+
+def split_invariance(ctx, R="R-C01-split"):
+    """Cutting a chunk in two changes nothing.  compute_chunk, once the first frame is out, is summarised in closed form by
+    forward substitution: frames emitted n(N; state) and the scalars carried to the next call state'(N; state), N the chunk
+    length.  Feeding N1 then N2 samples must emit as many frames and leave the same carried scalars as feeding N1 + N2 at
+    once - in particular for N2 = 0 (an interleaved empty chunk) and N2 = 1.  Decided by exact evaluation on a grid of
+    frame lengths, shifts, carried states within the computer's invariants, and chunk lengths."""
+    import itertools
+    prog = ctx.prog
+    f1 = prog.func("compute.ShortTimeFourierTransformFrameComputer.compute_chunk")
+    sig = f1.params[1]
+    n_cfg = 0
+    for style, kaldi in sc.CONFIGS:
+        name = sc.cfg_name(style, kaldi)
+        seed = {"self._frame_style": style, "self._kaldi_shift": kaldi, "self._first_frame": False, "self._started": True}
+        try:
+            ev1 = SymEval(prog, f1, seed=seed, rename=sc.NP_RENAME, inline_self=True, no_inline={"_compute_frame"}, loop_summary=True).run()
+        except Exception as e:
+            ctx.error(R, "cannot decide [%s]: %r" % (name, e))
+            continue
+        if len(ev1.returns) != 1:
+            ctx.error(R, "cannot decide [%s]: compute_chunk has several returns in the steady state" % name)
+            continue
+        sh = sc._alloc_shape(ev1.returns[0][1])
+        if sh is None:
+            ctx.error(R, "cannot decide [%s]: compute_chunk does not return a fresh (rows, cols) array" % name)
+            continue
+        frames = sc.canon_len(sh[0], [sig])
+        state = {}
+        for k, v in ev1.env.items():
+            if not (k.startswith("self._") and k.count(".") == 1) or k in ("self._buf", "self._started", "self._first_frame", "self._chunk_dtype"):
+                continue
+            v = sc.canon_len(v, [sig])
+            if S.has_unknown(v):
+                continue
+            state[k] = v
+        free = set()
+        for e in [frames] + list(state.values()):
+            free |= set(S.symbols(e))
+        carried = sorted(k for k in state)
+        outside = free - {"N", "L", "S"} - set(carried)
+        if "self._buf_len" not in state or outside:
+            ctx.error(R, "cannot decide [%s]: the carried state is not closed (%s)" % (name, sorted(outside) or "fill count has no closed form"))
+            continue
+        n_cfg += 1
+
+        def ev(e, env):
+            return S.evaluate(e, env)
+        bad = None
+        pts = 0
+        for L in (2, 3, 4, 7, 10):
+            for Sh in sorted({1, 2, L // 2, L - 1, L} - {0}):
+                if Sh > L:
+                    continue
+                for b in range(0, L):
+                    # carried scalars other than the fill count: any value between the fill count and the frame length (history
+                    # counters), which is the invariant the closed forms themselves maintain
+                    others = [k for k in carried if k != "self._buf_len"]
+                    for hs in itertools.product(*[sorted({b, min(L, b + 1), L}) for _ in others]):
+                        st0 = {"self._buf_len": Fraction(b)}
+                        st0.update({k: Fraction(h) for k, h in zip(others, hs)})
+                        for N1, N2 in ((0, 0), (1, 0), (3, 0), (L, 0), (2 * L + 1, 0), (0, 1), (1, 1), (L - 1, 1), (L, 1), (2, 3), (L + 1, L - 1), (3 * L, 2), (5, 2 * L + 3)):
+                            try:
+                                base = {"L": Fraction(L), "S": Fraction(Sh)}
+                                e1 = dict(base, N=Fraction(N1), **st0)
+                                n1 = ev(frames, e1)
+                                st1 = {k: ev(v, e1) for k, v in state.items()}
+                                e2 = dict(base, N=Fraction(N2), **st1)
+                                n2 = ev(frames, e2)
+                                st2 = {k: ev(v, e2) for k, v in state.items()}
+                                e12 = dict(base, N=Fraction(N1 + N2), **st0)
+                                n12 = ev(frames, e12)
+                                st12 = {k: ev(v, e12) for k, v in state.items()}
+                            except Exception:
+                                continue
+                            pts += 1
+                            if n1 + n2 != n12 or st2 != st12:
+                                diff = [k for k in carried if st2[k] != st12[k]]
+                                bad = (L, Sh, dict((k, int(v)) for k, v in st0.items()), N1, N2, int(n1 + n2), int(n12), diff,
+                                       {k: (int(st2[k]), int(st12[k])) for k in diff})
+                                break
+                        if bad:
+                            break
+                    if bad:
+                        break
+                if bad:
+                    break
+            if bad:
+                break
+        what = "[%s] feeding N1 then N2 samples emits the frames and leaves the carried scalars of feeding N1 + N2 at once (empty and one-sample chunks included)" % name
+        if bad:
+            L, Sh, st0, N1, N2, na, nb_, diff, vals = bad
+            ctx.bad(R, f1, f1.node, "%s: with frame length %d, shift %d and carried state %s, chunks of %d then %d samples give %d frame(s)%s; one chunk of %d samples gives %d%s"
+                    % (name, L, Sh, st0, N1, N2, na, (" and " + ", ".join("%s=%d" % (k.split(".")[-1], vals[k][0]) for k in diff)) if diff else "", N1 + N2, nb_,
+                       (" and " + ", ".join("%s=%d" % (k.split(".")[-1], vals[k][1]) for k in diff)) if diff else ""), what, robust=True)
+        elif pts:
+            ctx.ok(R, f1.loc(), what, "carried scalars %s; %d grid points" % ([k.split(".")[-1] for k in carried], pts))
+        else:
+            ctx.error(R, "cannot decide [%s]: no grid point could be evaluated" % name)
+    ctx.floor(R, n_cfg, 4)
 
 
 def single_chunk_history(ctx, R="R-C01-one-chunk-history"):
